@@ -348,6 +348,13 @@ def op2_func(c, o):
         else:
             res = getattr(r, name)(axis=-1)
         out = ER.proj_any(res, False, "flat")
+    elif name in ("wsum", "wcolsum"):                   # 64-bit totals beyond 2**53: values and totals travel as limbs
+        from .enc import limbs
+        res = r.sum(axis=-1) if name == "wsum" else r.sum(axis=0)
+        res = np.asarray(res.to_array() if isinstance(res, RunLengthArray) else res)
+        if res.dtype.kind == "f" and not np.all(np.isfinite(res)):
+            return ["raised", "NonFiniteSum"]
+        out = ["flat", obj[1] if res.dtype.kind == "f" else ER.dt_of(res.dtype), [limbs(int(x)) for x in res.tolist()]]
     elif name == "colsum":
         out = proj(r.sum(axis=0))
     elif name == "colmean":
